@@ -10,7 +10,7 @@ RULE = ("correspondence: exhaustive (pattern,name) pairs over small alphabets + 
         "semantics re-implemented independently in Python vs the implementation, native vs Sphinx representation, "
         "inv: links rendered through the docutils front end; non-trivial = pattern contains '*' or '\\\\' "
         "or the filter result is neither empty nor everything")
-TRUSTED = ["_create_regex / match_with_wildcard: translated from the source by gen/py2coq.py + gen/c19_wild.py (domain mapping: re.escape(c) -> PLit c, '.*' -> PStar, re.compile(r, re.DOTALL) -> (r, true)) and proved equal to the model (C19_wildcard_correct_src); filter_inventories / filter_sphinx_inventories / filter_string: translated by gen/c19_filters.py (nested for-loops with continue/yield -> structural Fixpoints) and proved equal to the models (C19_filter_exact_src, C19_native_equals_sphinx_src); to_sphinx (translated under C18: C18_inventory_src_refines) and render_link_inventory in coq/Inv are hand transcriptions tied by correspondence",
+TRUSTED = ["_create_regex / match_with_wildcard: translated from the source by gen/py2coq.py + gen/c19_wild.py (domain mapping: re.escape(c) -> PLit c, '.*' -> PStar, re.compile(r, re.DOTALL) -> (r, true)) and proved equal to the model (C19_wildcard_correct_src); filter_inventories / filter_sphinx_inventories / filter_string: translated by gen/c19_filters.py (nested for-loops with continue/yield -> structural Fixpoints) and proved equal to the models (C19_filter_exact_src, C19_native_equals_sphinx_src); render_link_inventory / get_inventory_matches: translated by gen/c19_link.py with urlparse and normalizeLinkText as Section-variable oracles (C19_inv_link_render_src); to_sphinx is translated under C18 (C18_inventory_src_refines)",
            "Python re: re.escape(c) matches exactly c; '.*' with DOTALL matches any run (exercised by the correspondence over a metacharacter alphabet)",
            "functools.lru_cache returns what the wrapped function returns"]
 ORACLES = {"O_re": "re.compile(re.escape(c)) matches only c; '.*' under DOTALL matches every string: checked by comparing the model with re on all pairs over the metacharacter alphabet",
@@ -31,6 +31,9 @@ def gen(ctx):
     # filter_inventories / filter_sphinx_inventories / filter_string, statement by statement (walker: gen/c19_filters.py)
     from gen import c19_filters
     ctx.gen_info["Gen/FilterSrc.v"] = c19_filters.run(ctx)
+    # render_link_inventory / get_inventory_matches (base.py, sphinx_.py), statement by statement (gen/c19_link.py)
+    from gen import c19_link
+    ctx.gen_info["Gen/InvLinkSrc.v"] = c19_link.run(ctx)
 
 
 # ------------------------------------------------------------------ independent spec
